@@ -166,6 +166,32 @@ func genC18(e *emitter, tier string) {
 		e.emit(loadCase("mutate:typed", mut(func(mp *onnx.ModelProto) { mp.Graph.Initializer[ti].Int32Data = []int32{1, 2} }), ""))
 		e.emit(loadCase("mutate:typed", mut(func(mp *onnx.ModelProto) { mp.Graph.Initializer[ti].Uint64Data = []uint64{1, 2, 3, 4} }), ""))
 	}
+	// an initializer that carries NO payload at all (every data field empty), with its own dims, without dims
+	// (a scalar), with dims [0] / [1] / [2]; for every element type code
+	for ti := 0; ti < 3; ti++ {
+		for _, d := range [][]int64{nil, {}, {0}, {1}, {2}, {1, 1}} {
+			for _, code := range []int32{-2, 1, 2, 3, 4, 5, 6, 7, 9, 10, 11, 12, 13, 16} {
+				d, code := d, code
+				e.emit(loadCase("mutate:no-payload", mut(func(mp *onnx.ModelProto) {
+					tp := mp.Graph.Initializer[ti]
+					tp.FloatData, tp.Int64Data, tp.DoubleData, tp.Int32Data, tp.Uint64Data, tp.RawData, tp.StringData = nil, nil, nil, nil, nil, nil, nil
+					if d != nil {
+						tp.Dims = d
+					}
+					if code != -2 {
+						tp.DataType = code
+					}
+				}), fmt.Sprint(ti, d, code)))
+			}
+		}
+	}
+	// byte strings that are no protobuf at all: every single byte, white space, text formats
+	for b := 0; b < 256; b++ {
+		e.emit(loadCase("bytes:single", []byte{byte(b)}, fmt.Sprint(b)))
+	}
+	for _, t := range []string{" ", "\n", "\r\n", "\t\t", "  \n  ", "{}", "{", "[]", "null", "{\"graph\":{}}", " {}", "\n{\"irVersion\":\"7\"}", "ir_version: 7", "<onnx/>", "\x00", "\x00\x00\x00\x00", "\xff\xff\xff\xff", "\xef\xbb\xbf", "\xef\xbb\xbf{}", "PK\x03\x04", "\x08\x07 ", " \x08\x07"} {
+		e.emit(loadCase("bytes:text", []byte(t), fmt.Sprintf("%q", t)))
+	}
 	// an initializer that is also listed as a graph input (IR < 4 exports), with a value-info that agrees,
 	// disagrees in rank / extent, is symbolic, or carries no shape at all
 	declSet := [][]any{{}, {1}, {2}, {3}, {2, 2}, {1, 2}, {2, 2, 1}, {1, 2, 2}, {3, 1}, {"N"}, {"N", 2}, {nil, nil, nil}, {0, 5}, {4, 4, 4, 4}}
